@@ -22,6 +22,9 @@ TYPES = {
     # a server that allows ONE concurrent stream: a stream slot that is lost anywhere wedges the next request at once
     "h2-1slot": dict(scheme="https", http2=True, alpn=["h2", "http/1.1"], max_streams=1),
     "maybe-h2": dict(scheme="https", http2=True, alpn=["http/1.1"]),
+    # the pool's uds= option: every connection is made to one unix socket, whatever the URL says
+    "uds": dict(scheme="http", uds="/run/hv.sock"),
+    "uds-tls": dict(scheme="https", uds="/run/hv.sock", alpn=["http/1.1"]),
     "fwd": dict(scheme="http", proxy="http"),
     "fwd-tls": dict(scheme="http", proxy="https"),
     "tun": dict(scheme="https", proxy="http", alpn=["http/1.1"]),
@@ -34,7 +37,7 @@ TYPES = {
 CORE_TYPES = ["h1", "h1tls", "h2", "h2-1slot", "fwd", "tun", "socks"]
 SHAPES = ["get", "post3", "stream-partial"]
 
-TYPE_CLASS = {"h1": "h1", "h1tls": "h1", "h2": "h2", "h2pk": "h2", "h2-1slot": "h2", "maybe-h2": "h1", "fwd": "fwd", "fwd-tls": "fwd",
+TYPE_CLASS = {"h1": "h1", "h1tls": "h1", "h2": "h2", "h2pk": "h2", "h2-1slot": "h2", "uds": "h1", "uds-tls": "h1", "maybe-h2": "h1", "fwd": "fwd", "fwd-tls": "fwd",
               "tun": "tun", "tun-h2": "tun", "tun-tls": "tun", "socks": "socks", "socks-auth-tls": "socks",
               "socks-h2": "socks"}
 
@@ -87,6 +90,9 @@ class Sc:
             self.proxy = endpoints.Socks5Proxy(net, "socks.test", 1080, origins=self.origins + self.probes, auth=auth)
             proxy_cfg = {"url": "socks5://socks.test:1080", "auth": auth}
         kw = dict(max_connections=max_connections, retries=retries, keepalive_expiry=keepalive_expiry)
+        if t.get("uds"):
+            net.add_uds(t["uds"], self.origins[0].factory)
+            kw["uds"] = t["uds"]
         if "http2" in t:
             kw["http2"] = t["http2"]
         if "http1" in t:
